@@ -273,6 +273,8 @@ func render(w source, importsWritten, optionsWritten []string) string {
 				javaSeen = true
 				b.SLead("opt_lead")
 				b.T("option", o, "=", stdOptionValues[o], ";").S("opt_trail").NL()
+			} else if o == "go_package" {
+				b.T("option").S("fileopt_after_keyword").T(o, "=", stdOptionValues[o], ";").NL()
 			} else {
 				b.T("option", o, "=", stdOptionValues[o], ";").NL()
 			}
@@ -284,7 +286,7 @@ func render(w source, importsWritten, optionsWritten []string) string {
 	b.SLead("msg_lead").T("message", "M", "{").S("msg_open_trail").NL().In()
 	switch w["msg_option"] {
 	case "simple":
-		b.T("option", "(fmt.v1.msg_note)", "=", `"note"`, ";").NL()
+		b.T("option").S("msgopt_after_keyword").T("(fmt.v1.msg_note)", "=", `"note"`, ";").NL()
 	case "literal":
 		b.T("option", "(fmt.v1.msg_rule)", "=", "{", "name", ":", `"m"`, "}", ";").NL()
 	}
@@ -372,7 +374,7 @@ func render(w source, importsWritten, optionsWritten []string) string {
 	}
 	b.SLead("inner_lead").T("message", "Inner", "{").NL().In().T(label("optional"), "int32", "v", "=", "1", ";").S("inner_field_trail").NL().Out().T("}").NL()
 	b.SLead("enum_lead").T("enum", "E", "{").NL().In()
-	b.T("option", "allow_alias", "=", "true", ";").NL()
+	b.T("option").S("enumopt_after_keyword").T("allow_alias", "=", "true", ";").NL()
 	b.SLead("enumval_lead").T("E_ZERO", "=", "0", "[").S("enumval_opts").T("(fmt.v1.value_note)", "=", `"z"`, "]", ";").NL()
 	b.T("E_NULL", "=", "0", ";").NL()
 	if w["empty_stmt"] == "in_enum" {
@@ -405,7 +407,7 @@ func render(w source, importsWritten, optionsWritten []string) string {
 	b.SLead("rpc_lead").T("rpc", "Do", "(").S("rpc_in_req").T("M", ")").S("rpc_before_returns").T("returns", "(", "stream", "M", ")")
 	switch w["rpc_style"] {
 	case "body":
-		b.T("{").NL().In().SLead("rpc_body").T("option", "idempotency_level", "=", "IDEMPOTENT", ";").NL().Out().SLead("rpc_close_lead").T("}").NL()
+		b.T("{").NL().In().SLead("rpc_body").T("option").S("rpcopt_after_keyword").T("idempotency_level", "=", "IDEMPOTENT", ";").NL().Out().SLead("rpc_close_lead").T("}").NL()
 	case "empty_body":
 		b.T("{", "}").NL()
 	case "semicolon":
